@@ -57,6 +57,10 @@ type Conn struct {
 	SilentStep  int
 	// SlowClose: Close is a park point of its own (per-run option)
 	SlowClose bool
+	// WriteBlocked: the peer takes nothing more and the send buffer is
+	// full: a Write blocks until its deadline, a local Close or a reset
+	WriteBlocked bool
+	EOFSeen      bool // a Read was answered with the end of the stream
 }
 
 // WirePkt is a complete client packet on the wire.
@@ -116,7 +120,7 @@ func (c *Conn) errClosed(op string) error {
 
 func (c *Conn) errBroken(op string) error {
 	if op == "read" {
-		if c.Broken == 1 {
+		if c.Broken == 1 || c.Broken == 3 {
 			return io.EOF
 		}
 		if c.pipe {
@@ -307,7 +311,7 @@ func (c *Conn) Handed(end int) bool { return c.rdCur >= end }
 // Break severs the connection from the outside. kind 1: peer closes (queued
 // data stays readable, then EOF); kind 2: reset (queued data is lost).
 func (c *Conn) Break(kind int) {
-	if c.Broken != 0 || c.closedLocal {
+	if (c.Broken != 0 && !(c.Broken == 3 && kind == 2)) || c.closedLocal {
 		return
 	}
 	c.Broken = kind
@@ -315,6 +319,10 @@ func (c *Conn) Break(kind int) {
 	c.w.Trouble()
 	if kind == 2 {
 		c.B2C = c.B2C[:c.rdCur]
+	}
+	if kind == 3 {
+		// half-close: the peer has sent FIN and takes nothing more
+		c.WriteBlocked = true
 	}
 	c.w.Ev("break", c.id, "conn%d broken kind=%d", c.id, kind)
 }
@@ -345,6 +353,7 @@ func (s *Sim) readAction(p *park) (Action, bool) {
 	if c.avail() == 0 {
 		if c.Broken != 0 {
 			return Action{Name: "read-eof", Weight: 10, p: p, Run: func() {
+				c.EOFSeen = true
 				op.err = c.errBroken("read")
 				w.Ev("read", c.id, "%s conn%d -> %v", p.g, c.id, op.err)
 				s.unpark(p)
